@@ -103,6 +103,10 @@ def overlap_specs(tier, rng):
     return out
 
 
+def txt(w):
+    return ''.join(F.CHAR[t] if t in F.CHAR else E.CHARS[t] for t in w)
+
+
 def placeholder_specs(tier, rng):
     """prioritised rules whose alternatives hold [..] placeholders and ? optionals (every such alternative is compiled with
     its own copy of the rule's options): invert / None must reach all of them"""
@@ -279,10 +283,10 @@ def judge(cases, ev, rep, tmp):
             inp = c['inputs'][k - 1]
             sp5 = dict(c['spec5'])
             sp5['ws'] = [inp['w']]
-            sp5['texts'] = [F.to_text(inp['w']) if not c['multitok'] else ''.join(inp['w'])]
+            sp5['texts'] = [txt(inp['w']) if not c['multitok'] else ''.join(inp['w'])]
             if c['multitok']:
                 sp5['toks'] = [inp['toks']]
-            rep.violation({'property': PID, 'grammar': c['gtext'], 'text': F.to_text(inp['w']) if not c['multitok'] else ''.join(inp['w']), 'clause': clause,
+            rep.violation({'property': PID, 'grammar': c['gtext'], 'text': txt(inp['w']) if not c['multitok'] else ''.join(inp['w']), 'clause': clause,
                            'observed': [o for o in inp['obs'] if clause.startswith(o['cfg']) and (o['mode'] in clause or 'optimal' not in clause)][:3],
                            'spec5': sp5})
 
